@@ -119,6 +119,23 @@ pub trait System: Sync {
     fn audit_suffixes(&self, _obj: &Self::Obj) -> Vec<Vec<u32>> {
         vec![]
     }
+    /// Alphabet of the deep audit (unmerged depth-bounded enumeration from every new state): everything that
+    /// is enabled plus the query operations, whose order matters when there is hidden state.
+    fn deep_ops(&self, obj: &Self::Obj) -> Vec<u32> {
+        let mut v = vec![];
+        self.enabled(obj, &mut v);
+        v
+    }
+    /// Query operations (do not change the logical contents) and update operations, for the
+    /// query - updates - query audit.  An empty query list disables that audit for the system.
+    fn query_ops(&self, _obj: &Self::Obj) -> Vec<u32> {
+        vec![]
+    }
+    fn update_ops(&self, obj: &Self::Obj) -> Vec<u32> {
+        let mut v = vec![];
+        self.enabled(obj, &mut v);
+        v
+    }
     /// Is `op` within the contract in this state?  Used when a fixed history is continued after an
     /// injected panic changed which of its later steps are still in contract.
     fn step_allowed(&self, _obj: &Self::Obj, _op: u32) -> bool {
@@ -237,6 +254,13 @@ pub struct Config {
     pub grace_secs: u64,
     /// run the observation suite and the audit suffixes on every arrival, not only on new states
     pub audit: bool,
+    /// deep audit: from every state enumerate all unmerged suffixes of this length over `deep_ops`
+    pub deep: u32,
+    /// query - updates - query audit: from every state, every query, then every sequence of 1..=quq updates,
+    /// then every query (each on its own replay, so that nothing refreshes a memo in between)
+    pub quq: u32,
+    /// number of trailing queries in the query - updates - query audit (2: every ordered pair of queries)
+    pub quq_tail: u32,
 }
 
 pub struct Report {
@@ -489,6 +513,176 @@ fn arrive<S: System>(
     }
 }
 
+/// Unmerged enumeration of every suffix of length <= depth from the state reached by `hist`.
+fn deep_dfs<S: System>(sys: &S, depth: u32, hist: &mut Vec<Step>, cx: &mut Cx, out: &mut WorkerOut, sh: &Shared) {
+    cx.muted = true;
+    let base = rebuild(sys, hist, cx);
+    cx.muted = false;
+    let Some(base) = base else {
+        return;
+    };
+    let ops = sys.deep_ops(&base);
+    drop(base);
+    for op in ops {
+        cx.muted = true;
+        let r = rebuild(sys, hist, cx);
+        cx.muted = false;
+        let Some(mut o) = r else {
+            return;
+        };
+        let st = Step::plain(op);
+        rt::hist_push(st.enc());
+        hist.push(st);
+        sys.step(&mut o, st, cx);
+        cx.count("deep_audit_steps");
+        if cx.viols.is_empty() && !cx.halt && depth == 1 {
+            sys.check_state(&o, cx);
+            cx.classes.clear();
+        }
+        if !cx.viols.is_empty() {
+            file_viols(sys, cx, hist, out, sh);
+        } else if cx.halt {
+            cx.halt = false;
+        } else if depth > 1 {
+            drop(o);
+            deep_dfs(sys, depth - 1, hist, cx, out, sh);
+        }
+        hist.pop();
+        if sh.stop.load(Ordering::Relaxed) {
+            return;
+        }
+    }
+}
+
+/// query - updates - query: see Config::quq
+fn quq_audit<S: System>(sys: &S, m: u32, tail: u32, hist: &mut Vec<Step>, cx: &mut Cx, out: &mut WorkerOut, sh: &Shared) {
+    cx.muted = true;
+    let base = rebuild(sys, hist, cx);
+    cx.muted = false;
+    let Some(base) = base else {
+        return;
+    };
+    let mut firsts: Vec<Option<u32>> = vec![None];
+    firsts.extend(sys.query_ops(&base).into_iter().map(Some));
+    drop(base);
+    if firsts.len() == 1 {
+        return;
+    }
+    for q1 in firsts {
+        let n0 = hist.len();
+        if let Some(q) = q1 {
+            // the first query itself is checked like any step
+            cx.muted = true;
+            let r = rebuild(sys, hist, cx);
+            cx.muted = false;
+            let Some(mut o) = r else {
+                return;
+            };
+            let sq = Step::plain(q);
+            rt::hist_push(sq.enc());
+            hist.push(sq);
+            sys.step(&mut o, sq, cx);
+            if !cx.viols.is_empty() {
+                file_viols(sys, cx, hist, out, sh);
+                hist.truncate(n0);
+                continue;
+            }
+            cx.halt = false;
+        }
+        quq_updates(sys, m, tail, hist, cx, out, sh);
+        hist.truncate(n0);
+        if sh.stop.load(Ordering::Relaxed) {
+            return;
+        }
+    }
+}
+
+fn quq_updates<S: System>(sys: &S, left: u32, tail: u32, hist: &mut Vec<Step>, cx: &mut Cx, out: &mut WorkerOut, sh: &Shared) {
+    // the prefix in `hist` has been validated step by step on the way here (or is replayed muted)
+    cx.muted = true;
+    let base = rebuild(sys, hist, cx);
+    cx.muted = false;
+    let Some(base) = base else {
+        return;
+    };
+    let ups = sys.update_ops(&base);
+    drop(base);
+    for u in ups {
+        cx.muted = true;
+        let r = rebuild(sys, hist, cx);
+        cx.muted = false;
+        let Some(mut o) = r else {
+            return;
+        };
+        let st = Step::plain(u);
+        rt::hist_push(st.enc());
+        hist.push(st);
+        sys.step(&mut o, st, cx);
+        cx.count("quq_steps");
+        if !cx.viols.is_empty() {
+            file_viols(sys, cx, hist, out, sh);
+            hist.pop();
+            continue;
+        }
+        if cx.halt {
+            cx.halt = false;
+            hist.pop();
+            continue;
+        }
+        // every query, each on its own replay of prefix + update(s)
+        let qs = sys.query_ops(&o);
+        drop(o);
+        for q in qs {
+            cx.muted = true;
+            let r = rebuild(sys, hist, cx);
+            cx.muted = false;
+            let Some(mut o2) = r else {
+                break;
+            };
+            let sq = Step::plain(q);
+            rt::hist_push(sq.enc());
+            hist.push(sq);
+            sys.step(&mut o2, sq, cx);
+            cx.count("quq_steps");
+            if !cx.viols.is_empty() {
+                file_viols(sys, cx, hist, out, sh);
+            } else if tail > 1 && !cx.halt {
+                // a second trailing query after the first one (a memo refreshed or a flag consumed by the
+                // first may leave the second with a stale answer)
+                let qs2 = sys.query_ops(&o2);
+                drop(o2);
+                for q3 in qs2 {
+                    cx.muted = true;
+                    let r = rebuild(sys, hist, cx);
+                    cx.muted = false;
+                    let Some(mut o3) = r else {
+                        break;
+                    };
+                    let s3 = Step::plain(q3);
+                    rt::hist_push(s3.enc());
+                    hist.push(s3);
+                    sys.step(&mut o3, s3, cx);
+                    cx.count("quq_steps");
+                    if !cx.viols.is_empty() {
+                        file_viols(sys, cx, hist, out, sh);
+                    }
+                    cx.halt = false;
+                    hist.pop();
+                }
+            }
+            cx.halt = false;
+            hist.pop();
+        }
+        if left > 1 {
+            quq_updates(sys, left - 1, tail, hist, cx, out, sh);
+        }
+        hist.pop();
+        if sh.stop.load(Ordering::Relaxed) {
+            return;
+        }
+    }
+}
+
 fn worker<S: System>(sys: &S, cfg: &Config, sh: &Shared, wid: usize) -> WorkerOut {
     rt::set_worker(wid);
     let mut out = WorkerOut { cands: FpMap::default(), viols: HashMap::new(), counters: HashMap::new(), classes: HashMap::new(), evals: 0 };
@@ -600,6 +794,14 @@ fn worker<S: System>(sys: &S, cfg: &Config, sh: &Shared, wid: usize) -> WorkerOu
                         hist.pop();
                     }
                 }
+            }
+            if cfg.deep > 0 {
+                let mut h2 = hist.clone();
+                deep_dfs(sys, cfg.deep, &mut h2, &mut cx, &mut out, sh);
+            }
+            if cfg.quq > 0 {
+                let mut h2 = hist.clone();
+                quq_audit(sys, cfg.quq, cfg.quq_tail, &mut h2, &mut cx, &mut out, sh);
             }
             rt::hist_idle();
         }
